@@ -5,7 +5,7 @@
 use std::ffi::c_int;
 use std::io::{self, Write};
 use std::ptr::{self, NonNull, null_mut};
-use std::slice;
+use std::sync::{Mutex, PoisonError};
 
 use memchr_rs::memchr;
 
@@ -78,48 +78,70 @@ impl VirtualMemory for UnixVirtualMemory {
 
 pub struct UnixStdin;
 
+/// Bytes already read from standard input but not yet handed out. One `read(2)` can deliver
+/// more than one line; what follows the first newline belongs to the next `read_line` calls.
+struct PendingInput {
+    bytes: std::vec::Vec<u8>,
+    start: usize,
+}
+
+static STDIN_PENDING: Mutex<PendingInput> =
+    Mutex::new(PendingInput { bytes: std::vec::Vec::new(), start: 0 });
+
 impl Stdin for UnixStdin {
     fn read_line<'a>(prompt: &Value<'a>, arena: &'a Arena) -> Result<ArenaString<'a>, io::Error> {
         print!("{prompt}");
         io::stdout().flush()?;
 
-        let mut cap = 8 * KIBI;
-        let mut buf = ArenaString::with_capacity_in(cap, arena);
-        let mut len = 0;
+        let mut guard = STDIN_PENDING.lock().unwrap_or_else(PoisonError::into_inner);
+        let pending = &mut *guard;
+        let mut searched = pending.start;
 
-        loop {
-            if len == cap {
-                cap *= 2;
-                buf.reserve_exact(cap - buf.capacity());
+        // `end` is where the line stops, `next` is where the following line begins.
+        let (end, next) = loop {
+            let index = memchr(b'\n', &pending.bytes, searched);
+            if index < pending.bytes.len() {
+                break (index, index + 1);
             }
+            searched = pending.bytes.len();
 
-            let count = cap - len;
-            let base = buf.as_ptr();
+            // Drop what earlier calls consumed, then make room for another chunk.
+            // `reserve` grows the buffer geometrically, so long lines are fine.
+            if pending.start > 0 {
+                pending.bytes.drain(..pending.start);
+                searched -= pending.start;
+                pending.start = 0;
+            }
+            pending.bytes.reserve(8 * KIBI);
 
+            let spare = pending.bytes.spare_capacity_mut();
             let n = unsafe {
-                libc::read(libc::STDIN_FILENO, base.add(len) as *mut libc::c_void, count)
+                libc::read(libc::STDIN_FILENO, spare.as_mut_ptr().cast::<libc::c_void>(), spare.len())
             };
             if n < 0 {
                 return Err(io::Error::last_os_error());
             }
             if n == 0 {
-                // EOF
-                break;
+                // EOF: hand out the remaining partial line
+                break (pending.bytes.len(), pending.bytes.len());
             }
-            let n = n.cast_unsigned();
 
-            len += n;
-
-            let hay = unsafe { slice::from_raw_parts(base, len) };
-            let index = memchr(b'\n', hay, len - n);
-            if index < len {
-                len = index;
-                break;
+            let filled = pending.bytes.len() + n.cast_unsigned();
+            unsafe {
+                pending.bytes.set_len(filled);
             }
+        };
+
+        let line = &pending.bytes[pending.start..end];
+        let mut buf = ArenaString::with_capacity_in(line.len(), arena);
+        unsafe {
+            buf.as_mut_vec().extend_from_slice(line);
         }
 
-        unsafe {
-            buf.as_mut_vec().set_len(len);
+        pending.start = next;
+        if pending.start == pending.bytes.len() {
+            pending.bytes.clear();
+            pending.start = 0;
         }
 
         Ok(buf)
